@@ -8,6 +8,7 @@ over-approximated call graph from the compile / error-display entry points is
 Stack depth and allocation failure are not decided (runtime quantities).
 """
 import json
+import re
 import os
 from collections import Counter
 
@@ -68,6 +69,13 @@ def reach(prog, roots, skip_reasons=()):
     return seen
 
 
+_OP = re.compile(r"[(\[@]")
+
+
+def _opname(descr):
+    return _OP.split(descr, 1)[0]
+
+
 def run(ctx, F):
     prog = F.lib
     S = sym.Sym(prog, inline_depth=2, max_depth=25)
@@ -84,6 +92,7 @@ def run(ctx, F):
     n_sites = 0
     kinds = Counter()
     unreachable_sites = 0
+    pending = []
     pending = []
     for d in sorted(prog.bodies):
         b = prog.bodies[d]
@@ -114,8 +123,32 @@ def run(ctx, F):
                 ctx.count("reviewed")
                 continue
             path = prog.path_to(seen_nostatic, d)
-            ctx.fail("F1-panic", key, f"reachable panic-capable construct: {s.kind} {descr} in {d}; not discharged by a local rule and not reviewed", where=where,
-                     path=[mir.short(x) for x in (path[:3] + ["…"] + path[-3:] if len(path) > 7 else path)])
+            pending.append((key, fn_key(d, prog) + "|" + _opname(descr), s, descr, d, where, path))
+    # known findings are call sites: when the operand provenance in a key changed (the code around the site was
+    # rewritten) but function and operation are the same, and the leftover known findings and leftover sites of
+    # that (function, operation) pair off one to one, the site is still that known finding
+    exact = {k for k, *_ in pending if f"F1-panic:{k}" in ctx.known}
+    left_known = {}
+    for fk in ctx.known:
+        if fk.startswith("F1-panic:") and fk[len("F1-panic:"):] not in exact:
+            inst = fk[len("F1-panic:"):]
+            fnp, _, dsc = inst.partition("|")
+            left_known.setdefault(fnp + "|" + _opname(dsc), []).append(inst)
+    left_sites = {}
+    for item in pending:
+        if item[0] not in exact:
+            left_sites.setdefault(item[1], []).append(item)
+    remap = {}
+    for coarse, items in left_sites.items():
+        ks = left_known.get(coarse, [])
+        if ks and len(ks) == len(items):
+            for it, k in zip(items, sorted(ks)):
+                remap[it[0]] = k
+    for key, coarse, s, descr, d, where, path in pending:
+        use = remap.get(key, key)
+        note = " (same call site as the listed finding; operand provenance changed)" if use != key else ""
+        ctx.fail("F1-panic", use, f"reachable panic-capable construct: {s.kind} {descr} in {d}; not discharged by a local rule and not reviewed" + note, where=where,
+                 path=[mir.short(x) for x in (path[:3] + ["…"] + path[-3:] if len(path) > 7 else path)])
     ctx.units["panic_sites_reachable"] = n_sites
     ctx.units["panic_sites_unreachable_code"] = unreachable_sites
     ctx.units["site_kinds"] = dict(kinds)
